@@ -135,8 +135,9 @@ func init() {
 			"(reject iff q < min / q > max), its violating branch returns an error, the measured quantity is the value (numbers) or its length (sized kinds) and all " +
 			"comparisons of one type agree on it; float tests exclude NaN; R-NARROW - lossy conversions to int64 in the input mappers are range- or round-trip-guarded; " +
 			"R-MEMBER - enum acceptance is controlled by equality with a table key, a failed pattern match rejects; R-BOOLWORDS - the fourteen documented words with their " +
-			"polarity; R-ERRDROP - no error of a repo call is discarded. R-CHILDREN - as in C01; R-NOCOERCE - no text-parsing conversion (strconv.Parse*, unit parser) is reachable from Validate / Serialize / ValidateType / SerializeType (edges behind a reflect-kind gate that excludes strings are cut; edges into ValidateCompatibility are not followed - assumption). NOT decided: that the lenient conversions denote the right number; unit arithmetic (C16).",
+			"polarity; R-ERRDROP - no error of a repo call is discarded. R-CHILDREN - as in C01; R-NOCOERCE - no text-parsing conversion (strconv.Parse*, unit parser) is reachable from Validate / Serialize / ValidateType / SerializeType (edges behind a reflect-kind gate that excludes strings are cut; edges into ValidateCompatibility are not followed - assumption). R-CONVKIND - every reflect Convert to a statically known scalar type reachable from Validate / Serialize happens only for source kinds that agree with the target (integer widths among themselves, integer or float to float, otherwise the same kind): established by Kind() comparisons or by a kind predicate of the repo that is evaluated here over all pairs of kinds. NOT decided: that the lenient conversions denote the right number; unit arithmetic (C16).",
 		Rules: []func(*Ctx){
+			func(c *Ctx) { c.ruleConvKind("R-CONVKIND"); c.R.Floor("R-CONVKIND", 4) },
 			func(c *Ctx) { c.ruleNoCoerce("R-NOCOERCE"); c.R.Floor("R-NOCOERCE", 3) },
 			func(c *Ctx) { c.ruleChildren("R-CHILDREN"); c.R.Floor("R-CHILDREN", 8) },
 			func(c *Ctx) { c.ruleBoundForm("R-BOUNDFORM") },
